@@ -160,13 +160,18 @@ def sort_rules(progs):
                     out.add('dedup')
                 elif A.callee(n) == 'std::inplace_merge':
                     out.add('merge')
-                elif depth < 2 and n.get('amc') and A.callee(n).startswith(FS + '::') and n.get('fn') in prog.fns and prog.fns[n['fn']].get('body') is not None \
+                elif A.callee(n) == 'std::unique':
+                    out.add('unique')
+                elif depth < 2 and n.get('amc') and n.get('fn') in prog.fns and prog.fns[n['fn']].get('body') is not None \
                         and prog.fns[n['fn']]['id'] != f['id']:
                     g = prog.fns[n['fn']]
                     Pg = A.Parents(g['body'])
                     for c in A.calls(g['body']):
                         if not Pg.guards(c) and not Pg.in_loop(c):
                             out |= helper_effects(c, depth + 1)
+                    # duplicate removal recognised by what it does (std::unique + erase of the tail), wherever it lives
+                    if 'unique' in out and any(A.cshort(c) == 'erase' for c in A.calls(g['body'])):
+                        out.add('dedup')
                 return out
             eff = {id(n): helper_effects(n) for n in order}
             sorts = [n for n in order if eff[id(n)] & {'sort-stable', 'sort-unstable'}]
